@@ -64,7 +64,8 @@ TARGETS = {
             "replaceRangeWith_valid_of_inv_partial", "replaceRangeWith_valid_inline_partial", "aroundPayload_of_norm",
             "insertInline_valid_of_norm", "replace_valid_of_inv_of_norm", "insertInline_valid", "replace_valid_of_inv",
             "fit_emits_valid_payload", "payloadInv_step_gen", "fit_emits_valid_payload_cut", "fit_replace_recorded_valid",
-            "delete_recorded_valid", "fit_no_raise_partial", "fit_raise_sites"],
+            "delete_recorded_valid", "fit_no_raise_partial", "fit_raise_sites",
+            "trivialFit_delete_applies", "delete_applies_flat", "delete_never_raises_flat"],
     "C12": ["canJoin_join_applies", "liftTarget_lift_applies_flat", "liftTarget_lift_applies", "insertPoint_insert_applies",
             "dropPoint_drop_applies_closed", "joinPoint_join_applies", "insertPoint_insert_text_applies",
             "insertPoint_insert_marked_top"],
